@@ -94,7 +94,9 @@ def execute(check, case, seed=None, replay=None):
             res['harness_error'] = f'{sim.failure}'
         elif sim.failure and sim.failure[0] in ('step-limit', 'virtual-time-limit'):
             res['harness_error'] = f'{sim.failure} (run did not terminate within its caps)'
-        elif main_task.exc is not None and not isinstance(main_task.exc, SystemExit):
+        elif isinstance(main_task.exc, SystemExit):
+            res['harness_error'] = 'main task exited: ' + ctx['stderr'][-1500:]
+        elif main_task.exc is not None:
             e = main_task.exc
             res['harness_error'] = 'main task raised: ' + ''.join(
                 traceback.format_exception(type(e), e, e.__traceback__))[-3000:]
